@@ -22,7 +22,7 @@ FORMULAS = [
     "y ~ f", "y ~ 0 + f", "y ~ x + f + g", "y ~ f:g", "y ~ x:f", "y ~ f + f:x", "y ~ C(k)", "y ~ 0 + C(k) + x", "y ~ C(g, Sum)", "y ~ g:C(k)",
     "y ~ x + (1|g)", "y ~ (x|g)", "y ~ (f|g)", "y ~ (0 + f|g)", "y ~ (1|g) + (x|h)", "y ~ (x|g:h)", "y ~ (1|C(k))", "y ~ f + (x|g) + (1|h)", "y ~ (1|g) + (1|h) + (x|g)",
 ]
-UNSEEN = {"f": "zz", "g": "zz", "h": "zz", "k": 99}
+UNSEEN = {"f": "ab", "g": "ss", "h": "qq", "k": 99}  # longer than, and starting like, a training level
 MODES = ["error", "warning", "silent"]
 
 
